@@ -58,6 +58,7 @@ def main_parallel(ids, tier, workers, outpath):
     from concurrent.futures import ProcessPoolExecutor
     shutil.rmtree(ROOT, ignore_errors=True)
     os.makedirs(ROOT)
+    sh(["git", "-C", "/repo", "worktree", "prune"])     # registrations left behind by an interrupted run
     for k in range(workers):
         w = os.path.join(ROOT, "w%d" % k)
         os.makedirs(w)
